@@ -183,6 +183,12 @@ theorem skin_sections_tile (hdr nIdx nTri nBone nSub nBatch : Nat) :
   refine ⟨(Skin.lay_tiles _ hdr).1, by rw [(Skin.lay_tiles _ hdr).2]; rfl, ?_⟩
   rw [Skin.lay_end]; simp [Skin.sectionBytes]; omega
 
+/-- a skin section is recorded with offset 0 exactly when it is empty (the header is never empty): a reader that treats
+    offset 0 as "absent" and the writer agree on every file -/
+theorem skin_offset_zero_iff_empty (hdr nIdx nTri nBone nSub nBatch : Nat) (hh : 0 < hdr) (i : Nat) :
+    (Skin.lay hdr (Skin.sectionBytes nIdx nTri nBone nSub nBatch)).1[i]? = some 0 ↔
+      (Skin.sectionBytes nIdx nTri nBone nSub nBatch)[i]? = some 0 := Skin.lay_zero_iff _ hdr hh i
+
 example : Skin.lay 60 (Skin.sectionBytes 3 9 12 0 2) = ([60, 66, 84, 0, 96], 144) := by decide
 
 end Wv.M2
